@@ -80,6 +80,10 @@ def regenerate(ctx):
                 changed.append("-" + f)
         shutil.rmtree(tmp, ignore_errors=True)
         ctx["gen_changed"] = changed
+        # pass T8 contains a function that left its subset by emitting a typed stub (wrong on purpose): only the theorems
+        # about that function break, and with them only the properties that stand on it
+        t8f = os.path.join(gen, "T8Failures.txt")
+        ctx["t8_failures"] = [l for l in (open(t8f).read().split("\n") if os.path.exists(t8f) else []) if l.strip()]
     # second stage: derived interval bounds (Lean → Lean), re-run when the kernels changed
     bounds = os.path.join(gen, "Bounds.lean")
     if changed or not os.path.exists(bounds):
@@ -93,7 +97,10 @@ def regenerate(ctx):
             if not os.path.exists(bounds) or open(bounds).read() != out:
                 open(bounds, "w").write(out)
                 changed.append("Bounds.lean")
-    return True, "regenerated (%d files changed%s)" % (len(changed), ": " + ",".join(changed) if changed else "")
+    note = ""
+    if ctx.get("t8_failures"):
+        note = "; T8: %d function(s) outside the translator's subset, stubbed: %s" % (len(ctx["t8_failures"]), " | ".join(x[:160] for x in ctx["t8_failures"]))
+    return True, "regenerated (%d files changed%s)%s" % (len(changed), ": " + ",".join(changed) if changed else "", note)
 
 
 # ---------------------------------------------------------------- lean build / audit
@@ -369,6 +376,8 @@ def run_check(pid, tier):
         ok, msg = step("lake-build", lean_build, ctx, pid, tier == "thorough")
         if not ok:
             broken.append("lake build Secp.Props.%s" % pid)
+            for w in ctx.get("t8_failures", []):
+                broken.append("translator (T8) could not follow the source, its *_regenerated theorem is void: " + w[:300])
             lean_error = msg
             m = re.findall(r"error: ([^\n]*)", msg)
             broken += ["lean: " + x[:200] for x in m[:8]]
